@@ -11,6 +11,16 @@ may normalise the candidate it accepts (built-in converters int->float,
 str<->KeyPath, int<->datetime; defaults of dict / object fields), so the value
 the template prescribes is the normalised candidate and encoding it must give
 back the DNA (drv_typed_roundtrip).
+
+drv_candidate_kinds covers the kinds of candidates / constants for which a
+shortcut in encode's structural comparison goes wrong (empty containers and
+containers that are a sub-container of a sibling candidate; symbolic objects
+whose Python `==` is not the symbolic comparison).  check_template also
+encodes values that differ from a decoded value at one place and checks that
+the template is untouched whether or not encode refuses them.  drv_binding
+offers the same placeholder object to fields repeatedly (after a refusal, after
+an acceptance, to another field) and changes placeholders after binding: a
+template that exists afterwards must decode every DNA to an accepted value.
 """
 import datetime
 import itertools
@@ -1693,13 +1703,17 @@ def random_node(rnd, depth, anyfield=True):
   if depth <= 0 or r < 0.22:
     return C(rnd.choice([0, 1, 2, 3, 'a', 'b', None, 2.5, True]))
   if r < 0.32:
-    keys = rnd.sample(['a', 'b', 'c', 'd'], rnd.randint(1, 3))
+    keys = rnd.sample(['a', 'b', 'c', 'd'], rnd.randint(0, 3))
     return D(**{k: random_node(rnd, depth - 1) for k in keys})
   if r < 0.40:
     return L([random_node(rnd, depth - 1) for _ in range(rnd.randint(0, 3))])
   if r < 0.48:
-    cls = rnd.choice([A, A2])
-    return O(cls, x=random_int_node(rnd, depth - 1), y=random_node(rnd, depth - 1))
+    cls = rnd.choice([A, A2, SC, NE, WE])
+    if cls in (A, A2):
+      return O(cls, x=random_int_node(rnd, depth - 1), y=random_node(rnd, depth - 1))
+    if cls is WE:
+      return O(cls, k=random_node(rnd, depth - 1))
+    return O(cls, k=random_node(rnd, depth - 1), m=random_node(rnd, depth - 1))
   if r < 0.68:
     return One([random_node(rnd, depth - 1) for _ in range(rnd.randint(1, 3))])
   if r < 0.86:
@@ -1794,13 +1808,15 @@ def drv_decode_encode(tier, seed):
       f'random templates; `where` subsets; all DNAs if <= {cap} else {cap} '
       'random; floats at lo/mid/hi; encode of the decoded value, of an '
       'independently built equal value, and of an equal value made of '
-      'built-in dict / list containers')
+      'built-in dict / list containers; encode of values changed at one '
+      'place (extra / missing key or element, other leaf, other class, '
+      '{} <-> []) leaves the template unchanged')
   rnd = rng(seed, 'c13-decode')
-  for root, sel in all_templates(tier, seed):
+  for ti, (root, sel) in enumerate(all_templates(tier, seed)):
     try:
       check_template(rec, root, sel, rnd, cap,
                      deep_checks=2 if tier == 'quick' else 4,
-                     foreign_checks=1 if tier == 'quick' else 3)
+                     foreign_checks=(ti % 3 == 0) if tier == 'quick' else 3)
     except Exception as e:  # pylint: disable=broad-except
       rec.case('harness/' + signature(root, sel), (src(root), sel), False,
                f'harness error {type(e).__name__}: {e}', src(root))
@@ -1816,7 +1832,8 @@ def only_custom_infinite(root, sel):
   return not any(n.kind in ('f', 'ev') and is_sel(n, sel) for n in walk(root))
 
 
-def check_iter(rec, root, sel, total, seed, sample, post=None, sig=None):
+def check_iter(rec, root, sel, total, seed, sample, post=None, sig=None,
+               quick=False):
   """pg.iter over one finite template vs the model's enumeration."""
   sig = sig or signature(root, sel)
   vsrc = src(root)
@@ -1858,7 +1875,10 @@ def check_iter(rec, root, sel, total, seed, sample, post=None, sig=None):
   df = snap.diff()
   rec.case(f'iter.template-unchanged/{sig}', key0, df is None, df,
            pre + f'j = pg.to_json_str(v); list(pg.iter(v{wsrc})); assert pg.to_json_str(v) == j')
-  for k in sorted({1, max(total - 1, 1), total + 2}):
+  ks = {1, max(total - 1, 1), total + 2}
+  if quick and total > 2:
+    ks.discard(1 if len(vsrc) % 2 else total + 2)
+  for k in sorted(ks):
     try:
       ys = list(pg.iter(v, k, where=where_fn(sel)))
       ok = [pg_key(y) for y in ys] == got[:k]
@@ -1899,7 +1919,8 @@ def drv_iter(tier, seed):
     if unselected_below_selected_choice(root, sel) and has_ref(root):
       continue
     n_done += 1
-    check_iter(rec, root, sel, total, seed, n_done % 3 == 0)
+    check_iter(rec, root, sel, total, seed, n_done % 3 == 0,
+               quick=tier == 'quick')
   return rec.result()
 
 
@@ -2073,7 +2094,7 @@ def drv_typed_roundtrip(tier, seed):
         if (tier != 'quick' or n % 3 == 0) and total <= 40 and (
             only_custom_infinite(root, None)):
           check_iter(rec, root, None, total, seed, n % 6 == 0, post=post,
-                     sig=sig)
+                     sig=sig, quick=tier == 'quick')
       except Exception as e:  # pylint: disable=broad-except
         rec.case('harness/' + sig, src(root), False,
                  f'harness error {type(e).__name__}: {e}', src(root))
@@ -2183,7 +2204,7 @@ def kind_templates(tier, seed):
   for fi, (fam, cs) in enumerate(kind_families()):
     shapes = kind_shapes(cs)
     for si, (shape, mk) in enumerate(shapes):
-      if quick and not (si in (0, 1) or (si + 2 * fi + seed) % 7 == 0):
+      if quick and not (si in (0, 1) or (si + 3 * fi + seed) % 10 == 0):
         continue
       yield (assign_names(mk()),
              fam if fam == LIST_VS_EMPTY_DICT else f'{fam}.{shape}')
@@ -2220,8 +2241,9 @@ def drv_candidate_kinds(tier, seed):
                      deep_checks=2 if tier == 'quick' else 4, sig=sig,
                      foreign_checks=1 if tier == 'quick' else 3)
       total = msize(root, None)
-      if (tier != 'quick' or n % 5 == 0) and total <= 40:
-        check_iter(rec, root, None, total, seed, n % 10 == 0, sig=sig)
+      if (tier != 'quick' or n % 6 == 0) and total <= 40:
+        check_iter(rec, root, None, total, seed, n % 10 == 0, sig=sig,
+                   quick=tier == 'quick')
     except Exception as e:  # pylint: disable=broad-except
       rec.case('harness/' + sig, src(root), False,
                f'harness error {type(e).__name__}: {e}', src(root))
@@ -2482,23 +2504,21 @@ def drv_binding(tier, seed):
   for field, (good, bad) in FIELD_VALUES.items():
     plain_good = [g for g in good if 'pg.' not in g] or good
     for b in bad:
-      cls = 'hyper' if 'pg.' in b else 'const'
-      sname, shape = SHAPES[n % len(SHAPES)]
-      cs = [plain_good[0], plain_good[-1]]
-      cs.insert((n // 3) % 3, b)
-      cid = (f'{sname}.{cls}.scalar-candidates' if ckind(field)[0] == 's'
-             else ckind(field))
-      _bind_steps(rec, f'bind.retry-after-refusal/{cid}', shape(cs),
-                  [(n + i, field) for i in range(3)])
-      n += 1
+      for sname, shape in ([SHAPES[n % len(SHAPES)]] if tier == 'quick'
+                           else SHAPES):
+        cs = [plain_good[0], plain_good[-1]]
+        cs.insert((n // 3) % 3, b)
+        cid = (f'{sname}.scalar-candidates' if ckind(field)[0] == 's'
+               else ckind(field))
+        _bind_steps(rec, f'bind.retry-after-refusal/{cid}', shape(cs),
+                    [(n + i, field) for i in range(3)])
+        n += 1
       if 'pg.' in b:
         kind = ('floatv' if b.startswith('pg.floatv') else
                 'manyof' if b.startswith('pg.manyof') else 'container-with-oneof')
-        for k in range(len(BIND_ROUTES)):
+        for k in ([n] if tier == 'quick' else range(len(BIND_ROUTES))):
           _bind_steps(rec, f'bind.retry-after-refusal/{kind}', b,
                       [(k, field), (k, field), (k + 1, field)])
-          if tier == 'quick':
-            break
     # ... and an acceptable one offered repeatedly stays acceptable / decodable.
     for g in good[:1 if tier == 'quick' else 2]:
       cs = [g, plain_good[0], plain_good[-1]]
